@@ -15,6 +15,7 @@ mod rt;
 mod proxy;
 mod refpeer;
 mod scen_c08;
+mod scen_c10;
 mod scen_c14;
 mod scen_c15;
 mod scen_c16;
@@ -39,6 +40,7 @@ fn generate(prop: &str, seed: u64, thorough: bool) -> Option<Plan> {
         "C04" => Some(scen_link::gen_c04(seed, thorough)),
         "C05" => Some(scen_link::gen_c05(seed, thorough)),
         "C08" => Some(scen_c08::gen_c08(seed, thorough)),
+        "C10" => Some(scen_c10::gen_c10(seed, thorough)),
         "C11model" => Some(scen_pw::gen_c11_model(seed, thorough)),
         "C11" => Some(scen_udp::gen_c11_system(seed, thorough)),
         "C13" => Some(scen_local::gen_c13(seed, thorough)),
@@ -62,6 +64,7 @@ fn execute(plan: &Plan) -> Outcome {
         "config-names" => scen_c16::execute_c16(plan),
         "addresses" => scen_c14::execute_c14(plan),
         "interop" => scen_ref::execute_c03(plan),
+        "freshness" => scen_c10::execute_c10(plan),
         other => {
             eprintln!("unknown scenario {other}");
             std::process::exit(2);
